@@ -151,7 +151,7 @@ def title_token(rng, t):
     return str_token(rng, t)
 
 
-def gen_items(rng, opts, ctxflags, depth=0, maxitems=6, p_unknown=0.0, titles=None, toks=None, bounds=None):
+def gen_items(rng, opts, ctxflags, depth=0, maxitems=6, p_unknown=0.0, titles=None, toks=None, bounds=None, kv_keys=None):
     """grammar-derived item list for the schema, as a flat list of source tokens (bytes).
     When `bounds` is given, it receives every index of `toks` at which an item starts or a body ends."""
     top = toks is None
@@ -176,12 +176,21 @@ def gen_items(rng, opts, ctxflags, depth=0, maxitems=6, p_unknown=0.0, titles=No
                 toks.append(title_token(rng, rng.choice(titles or TITLES)))
             toks.append(b"{")
             if o.flags & KEYSTRVAL:
+                keys = [b"k1", b"k2", b"key", b"K1"]
+                if kv_keys:
+                    # arbitrary byte strings as keys, written as whatever token form can carry them
+                    keys = keys + [str_token(rng, k) for k in kv_keys]
+                # keys that look like paths through a *declared* sub-section of the free-form section (F32)
+                for ss in o.subs:
+                    if ss.ty == "sec":
+                        sn = ss.name.encode("latin1")
+                        keys += [sn + b"|zzk", sn + b"|nosuch|zzk", b'"' + sn + b'=0|zzk"', sn + b"|"]
                 for _k in range(rng.randint(0, 3)):
                     if bounds is not None:
                         bounds.append(len(toks))
-                    toks += [rng.choice([b"k1", b"k2", b"key", b"K1"]), b"=", str_token(rng, rng.choice(STR_BYTES))]
+                    toks += [rng.choice(keys), b"=", str_token(rng, rng.choice(STR_BYTES))]
             if depth < 3:
-                gen_items(rng, o.subs, ctxflags, depth + 1, max(1, maxitems - 2), p_unknown, titles, toks, bounds)
+                gen_items(rng, o.subs, ctxflags, depth + 1, max(1, maxitems - 2), p_unknown, titles, toks, bounds, kv_keys)
             elif bounds is not None:
                 bounds.append(len(toks))
             toks.append(b"}")
@@ -358,7 +367,9 @@ def rand_schema(rng, names=None, depth=0, maxdepth=2, width=5, allow=("int", "fl
             o = Opt(names.new("fn"), "func", 0, None, "U")
         elif ty == "ptr":
             is_list = rng.random() < 0.3
-            o = Opt(names.new("p"), "ptr", LIST if is_list else 0, None, "pf")
+            # a pointer option needs a value-parsing callback to take a value from a text; one declared
+            # without it refuses every value (F31: it used to do so silently)
+            o = Opt(names.new("p"), "ptr", LIST if is_list else 0, None, rng.choice(["pf"] * 6 + ["f"]))
         else:
             is_list = rng.random() < p_flags
             if is_list:
